@@ -1,7 +1,7 @@
 import Chain33Model.Proofs.C06Iter
 /-!
-The `goBadgerDBIt` machine (`C06.BIter`), forward direction: it visits the *inclusive* range
-`start ≤ key ≤ end` — the only upper check is `itBase.checkKey`.
+The `goBadgerDBIt` machine (`C06.BIter`, the repaired code of /repo commit 0f6664f): a scan visits
+exactly the in-range entries, like `goLevelDBIt`.
 -/
 namespace C06
 
@@ -11,9 +11,28 @@ def BIter.restF (it : BIter) : List Entry :=
   | some i => it.all.drop i
   | none => []
 
+/-- the key filter of `goBadgerDBIt.Valid`. -/
+def keyOK (start : Bytes) (end_ : Option Bytes) (k : Bytes) : Bool :=
+  checkKey start end_ k && belowUpper end_ k
+
+theorem keyOK_eq_inRange (start : Bytes) (end_ : Option Bytes) (k : Bytes) :
+    keyOK start end_ k = inRange start end_ k := by
+  unfold keyOK checkKey inRange
+  cases end_ with
+  | none => simp [belowUpper]
+  | some e =>
+    simp only [belowUpper]
+    cases hlt : blt k e with
+    | false => simp
+    | true => simp [ble_of_blt hlt]
+
+theorem BIter.valid_eq (it : BIter) : it.valid = (match it.cur with
+    | some e => keyOK it.start it.end_ e.1
+    | none => false) := rfl
+
 theorem BIter.drain_forward {it : BIter} (hrev : it.reverse = false) {fuel : Nat}
     (hf : it.restF.length ≤ fuel) :
-    BIter.drain fuel it = it.restF.takeWhile (fun e => checkKey it.start it.end_ e.1) := by
+    BIter.drain fuel it = it.restF.takeWhile (fun e => keyOK it.start it.end_ e.1) := by
   induction fuel generalizing it with
   | zero =>
     have : it.restF = [] := List.length_eq_zero_iff.mp (by omega)
@@ -28,11 +47,11 @@ theorem BIter.drain_forward {it : BIter} (hrev : it.reverse = false) {fuel : Nat
           simp only [BIter.restF, hp]; exact List.drop_eq_getElem_cons hi
         have hcur : it.cur = some it.all[i] := by simp [BIter.cur, hp, List.getElem?_eq_getElem hi]
         rw [hrest, List.takeWhile_cons]
-        by_cases hv : checkKey it.start it.end_ it.all[i].1 = true
-        · have hvalid : it.valid = true := by simp [BIter.valid, hcur, hv]
+        by_cases hv : keyOK it.start it.end_ it.all[i].1 = true
+        · have hvalid : it.valid = true := by rw [BIter.valid_eq, hcur]; exact hv
           let it' : BIter := { it with pos := if i + 1 < it.all.length then some (i + 1) else none }
-          have hnext : it.next = some (it', it'.valid) := by
-            simp [BIter.next, hp, hrev, it']
+          have hnext : it.next.1 = it' := by
+            simp [BIter.next, BIter.uNext, hp, hrev, it']
           have hrest' : it'.restF = it.all.drop (i + 1) := by
             simp only [BIter.restF, it']
             by_cases h2 : i + 1 < it.all.length
@@ -43,7 +62,8 @@ theorem BIter.drain_forward {it : BIter} (hrev : it.reverse = false) {fuel : Nat
           simp only [BIter.drain, hvalid, if_true, hnext, hv]
           rw [ih (it := it') hrev hlen, hrest']
           simp [BIter.key, BIter.value, hcur, it']
-        · have hvalid : it.valid = false := by simp [BIter.valid, hcur, hv]
+        · have hvalid : it.valid = false := by
+            rw [BIter.valid_eq, hcur]; simpa using hv
           simp [BIter.drain, hvalid, hv]
       · have hrest : it.restF = [] := by
           simp only [BIter.restF, hp]; exact List.drop_eq_nil_of_le (Nat.le_of_not_lt hi)
@@ -96,21 +116,20 @@ theorem BIter.bSeek_restF {it : BIter} (hrev : it.reverse = false) (k : Bytes) :
     · simp [BIter.restF, hi]
     · simp [BIter.restF, hi, List.drop_eq_nil_of_le (Nat.le_of_not_lt hi)]
 
-/-- on a sorted list: dropping the keys `< lo` and then taking while `key ≤ hi` (or everything)
-is filtering by `lo ≤ key ∧ key ≤ hi`. -/
+/-- on a sorted list: dropping the keys `< lo` and then taking while in range is filtering by
+the range. -/
 theorem sorted_drop_take {m : Map} (hs : Sorted m) (lo : Bytes) (hi : Option Bytes) :
-    (m.dropWhile (fun e => blt e.1 lo)).takeWhile (fun e => checkKey lo hi e.1)
-      = m.filter (fun e => checkKey lo hi e.1) := by
+    (m.dropWhile (fun e => blt e.1 lo)).takeWhile (fun e => inRange lo hi e.1) = range m lo hi := by
+  unfold range
   induction m with
   | nil => rfl
   | cons e m ih =>
     have ⟨hhd, htl⟩ := sorted_cons.mp hs
     by_cases hlt : blt e.1 lo = true
-    · have : checkKey lo hi e.1 = false := by simp [checkKey, ble, hlt]
+    · have : inRange lo hi e.1 = false := by simp [inRange, ble, hlt]
       simp only [List.dropWhile_cons, hlt, if_true, List.filter_cons, this, Bool.false_eq_true, if_false]
       exact ih htl
     · simp only [List.dropWhile_cons, hlt, if_false, Bool.false_eq_true]
-      -- no later key is < lo either; takeWhile = filter because later keys only grow
       have hlo : ∀ e' ∈ e :: m, ble lo e'.1 = true := by
         intro e' he'
         rcases List.mem_cons.mp he' with rfl | he'
@@ -125,31 +144,30 @@ theorem sorted_drop_take {m : Map} (hs : Sorted m) (lo : Bytes) (hi : Option Byt
       | nil => rfl
       | cons a L ihL =>
         have ⟨hha, hta⟩ := sorted_cons.mp hs
-        by_cases hc : checkKey lo hi a.1 = true
+        by_cases hc : inRange lo hi a.1 = true
         · simp only [List.takeWhile_cons, hc, if_true, List.filter_cons]
           rw [ihL hta (fun e' he' => hlo e' (by simp [he']))]
-        · have hc' : checkKey lo hi a.1 = false := by simpa using hc
+        · have hc' : inRange lo hi a.1 = false := by simpa using hc
           simp only [List.takeWhile_cons, hc', Bool.false_eq_true, if_false, List.filter_cons]
-          -- a.1 > hi, hence every later key too
           symm
           apply List.filter_eq_nil_iff.mpr
           intro e' he'
           have hlo' := hlo a (by simp)
           cases hi with
-          | none => simp [checkKey, hlo'] at hc'
+          | none => simp [inRange, belowUpper, hlo'] at hc'
           | some u =>
-            have hau : ble a.1 u = false := by simpa [checkKey, hlo'] using hc'
-            have : blt u a.1 = true := by simpa [ble] using hau
-            have h3 : blt u e'.1 = true := blt_trans this (hha e' he')
-            simp [checkKey, ble, h3]
+            have hau : blt a.1 u = false := by simpa [inRange, belowUpper, hlo'] using hc'
+            have h3 : blt e'.1 u = false := by
+              cases h : blt e'.1 u with
+              | false => rfl
+              | true => rw [blt_trans (hha e' he') h] at hau; cases hau
+            simp [inRange, belowUpper, h3]
 
-/-- **what the forward badger scan really returns**: the keys with `start ≤ key ≤ end`
-(inclusive upper bound). -/
+/-- **forward badger scan** (repaired code): exactly the in-range entries, ascending. -/
 theorem BIter.scan_forward {m : Map} (hs : Sorted m) (start : Bytes) (end_ : Option Bytes) :
-    (BIter.mk' m start end_ false).scan
-      = m.filter (fun e => checkKey start (effEnd start end_) e.1) := by
+    (BIter.mk' m start end_ false).scan = range m start (effEnd start end_) := by
   let it0 : BIter := { all := m, start := start, end_ := effEnd start end_, reverse := false, pos := none }
-  have hmk : BIter.mk' m start end_ false = it0.bSeek start := by simp [BIter.mk', it0]
+  have hmk : BIter.mk' m start end_ false = it0.bSeek start := by simp [BIter.mk', BIter.rewind, it0]
   obtain ⟨hr1, ha1, hs1, he1⟩ := BIter.bSeek_fields it0 start
   have hr1' : (it0.bSeek start).reverse = false := hr1
   have hrw : (it0.bSeek start).rewind.1 = (it0.bSeek start).bSeek start := by
@@ -165,6 +183,9 @@ theorem BIter.scan_forward {m : Map} (hs : Sorted m) (start : Bytes) (end_ : Opt
     omega
   unfold BIter.scan
   rw [hmk, hrw, BIter.drain_forward (by rw [hr2]; exact hr1') hlen, hrest, hs2, he2, hs1, he1, ha1]
+  have : (fun e : Entry => keyOK start (effEnd start end_) e.1) = (fun e => inRange start (effEnd start end_) e.1) := by
+    funext e; exact keyOK_eq_inRange _ _ _
+  rw [this]
   exact sorted_drop_take hs start (effEnd start end_)
 
 end C06
